@@ -197,7 +197,7 @@ fn small(ctx: &mut Ctx) {
 }
 
 // Generates runs with code-unit classes steered by `profile`.
-fn gen_runs(rng: &mut Rng, target_runs: usize, profile: usize, limit: usize, first_at_zero: bool) -> Vec<(usize, usize)> {
+pub fn gen_runs(rng: &mut Rng, target_runs: usize, profile: usize, limit: usize, first_at_zero: bool) -> Vec<(usize, usize)> {
     let mut runs: Vec<(usize, usize)> = Vec::new();
     let mut pos = 0usize;
     for i in 0..target_runs {
